@@ -215,7 +215,7 @@ theorem sigmaTRDomain_sound (M : Scm) (district : List Name) (d : Domain)
     (hne : district ≠ []) (hreg : ∀ v ∈ district, v ∈ regular d.graph)
     (biT : ∀ a b, d.graph.BiEdge a b → isTnode a = false)
     (σ' : Val)
-    (hshape : ProbShape d.graph.nodes d.pop (d.topo.filter (· ∈ regular d.graph)))
+    (hshape : ProbShape d.pop (d.topo.filter (· ∈ regular d.graph)))
     (hpop : ∀ σ, den (M.env d.graph) σ' d.pop σ = M.Q (d.topo.filter (· ∈ regular d.graph)) σ)
     (e : Expr) (h : sigmaTRDomain district d = .ok (some e)) :
     ∀ σ, den (M.env d.graph) σ' e σ = M.Q (nsort district) σ := by
@@ -274,7 +274,7 @@ theorem sigmaTRDomain_sound (M : Scm) (district : List Name) (d : Domain)
         have hdenq : ∀ σ, den (M.env d.graph) σ' q σ = M.Q (nsort dsl.flatten) σ :=
           cfactor_sound M d.graph hM hG hrank d.topo (regular d.graph) htnd hord hHn _ hBnd hBsub hclosed
             d.pop q σ' hshape hpop hq
-        have hshapeq : ProbShape d.graph.nodes q (nsort dsl.flatten) := by
+        have hshapeq : ProbShape q (nsort dsl.flatten) := by
           unfold computeCFactor at hq
           simp only at hq
           split at hq
